@@ -402,6 +402,30 @@ pub struct RunSummary {
     pub exit: i32,
 }
 
+/// Does the finding's replay still show its violation class? A replay that carries a recorded
+/// schedule is bound to the exact sequence of scheduling points of the tree it was recorded
+/// on; when it does not reproduce as recorded (any change to the code shifts the points), the
+/// same case is searched again under up to 400 scheduler seeds before the finding counts as gone.
+pub fn reproduces_with_search(owner: &dyn Check, case: &Case, f: &Finding) -> bool {
+    let sig = f.signature.clone().or(case.signature.clone()).unwrap_or_default();
+    let hit = |c: &Case| owner.run_case(c).viols.iter().any(|v| v.class == sig);
+    if hit(case) {
+        return true;
+    }
+    if case.schedule.is_none() {
+        return false;
+    }
+    for k in 1..=400u64 {
+        let mut c = case.clone();
+        c.schedule = None;
+        c.seed = case.seed.wrapping_add(k.wrapping_mul(0x9E3779B97F4A7C15));
+        if hit(&c) {
+            return true;
+        }
+    }
+    false
+}
+
 /// Avoidance constraints of the open findings that still reproduce (same rule as `run_check`).
 pub fn active_avoid() -> Vec<String> {
     let findings = load_findings();
@@ -412,11 +436,7 @@ pub fn active_avoid() -> Vec<String> {
                 let p = Path::new(VERIF_DIR).join(rp);
                 match std::fs::read_to_string(&p).ok().and_then(|s| serde_json::from_str::<Case>(&s).ok()) {
                     Some(case) => match crate::checks::by_id(&case.property) {
-                        Some(o) => {
-                            let r = o.run_case(&case);
-                            let sig = f.signature.clone().or(case.signature.clone()).unwrap_or_default();
-                            r.viols.iter().any(|v| v.class == sig)
-                        }
+                        Some(o) => reproduces_with_search(o, &case, f),
                         None => true,
                     },
                     None => true,
@@ -510,11 +530,7 @@ pub fn run_check(check: &dyn Check, tier: &str, master_seed: u64) -> RunSummary 
                     Some(case) => {
                         let owner = crate::checks::by_id(&case.property);
                         match owner {
-                            Some(o) => {
-                                let r = o.run_case(&case);
-                                let sig = f.signature.clone().or(case.signature.clone()).unwrap_or_default();
-                                r.viols.iter().any(|v| v.class == sig)
-                            }
+                            Some(o) => reproduces_with_search(o, &case, f),
                             None => true,
                         }
                     }
